@@ -22,7 +22,10 @@ class P(vlib.Prop):
     level_text = ("Theorems: the apk order is a total order (c03_total_order); the model's CompareVersions, the six operators and ~ agree with it for all parsed versions "
                   "(c03_compare_is_spec, c03_operators, c03_tilde) — proved through finite checks over ALL rows of the enum constants / switch tables regenerated from version.go; "
                   "the source regex is the apk grammar (c03_grammar_is_apk, by computation on the regenerated AST with a verified matcher); accepted <=> grammatical and components fit int64 "
-                  "(partial), with the unconditional iff refuted by a witness (finding C03-F1). Correspondence compares every parsed field, every comparison and every SatisfiedBy verdict.")
+                  "(partial), with the unconditional iff refuted by a witness (finding C03-F1). On STRINGS: every accepted version decodes to a spec tuple (c03_parsed_versions_decode); the relation "
+                  "CompareVersions induces on accepted strings is a total preorder whose equivalence is 'same parsed version', not string equality - 1.01 ~ 1.1 (c03_preorder_on_strings, "
+                  "c03_leading_zero_equivalent); SatisfiedBy on a constraint whose version parses is the spec's operator on the two tuples, ~ included, and from the constraint string for clean parts "
+                  "(c03_operators_on_strings, c03_tilde_on_strings, c03_constraint_string_is_spec, c03_satisfied_by_edges). Correspondence compares every parsed field, every comparison and every SatisfiedBy verdict.")
     level_note = ("trusted: Coq kernel, goextract (regex AST, constants, switch tables), harness; modelled not verified: control flow of ParseVersion/CompareVersions/includesVersion/"
                   "ResolvePackageNameVersionPin (hand model, differential testing), Go regexp engine")
     modelled_not_verified = "version.go control flow is modelled by hand; constants, switch tables and regexes are regenerated"
